@@ -89,3 +89,71 @@ func runE2E(c *core.Ctx) {
 	}
 	c.Sample(map[string]any{"command": spec.name, "args": spec.args, "records": n, "max_cpu": cpus, "batch_size": sizes})
 }
+
+
+// runE2EFiles: several input files (some of them empty) given to one command:
+// the records of the files come out one file after the other, in order.
+func runE2EFiles(c *core.Ctx) {
+	nf := 2 + c.Rng.Intn(3)
+	var paths []string
+	var want []string
+	var shape []int
+	for f := 0; f < nf; f++ {
+		n := []int{0, 0, 1, 3, 40, 300}[c.Rng.Intn(6)]
+		if f == 0 && c.Idx%2 == 0 {
+			n = 0 // empty first file
+		}
+		shape = append(shape, n)
+		recs := itx.MkRecs(c.Rng, fmt.Sprintf("f%d_", f), n)
+		var sb strings.Builder
+		for _, r := range recs {
+			fmt.Fprintf(&sb, ">%s {\"k\":%d}\n%s\n", r.ID, r.K, r.Seq)
+			want = append(want, r.ID)
+		}
+		p := filepath.Join(c.Dir, fmt.Sprintf("mf-%d-%d.fasta", c.Idx, f))
+		os.WriteFile(p, []byte(sb.String()), 0o644)
+		defer os.Remove(p)
+		paths = append(paths, p)
+	}
+	for _, cfg := range [][2]int{{1, 100}, {4, 3}, {16, 1}} {
+		args := append([]string{"--no-progressbar", "--max-cpu", fmt.Sprint(cfg[0]), "--batch-size", fmt.Sprint(cfg[1])}, paths...)
+		res := cmdx.Run(filepath.Join(c.BinDir, "obiconvert"), args, cmdx.Opt{})
+		c.Count("evaluations", 1)
+		c.Count("command_runs", 1)
+		det := map[string]any{"files_record_counts": shape, "config": cfg, "exit": res.Exit, "stderr": cmdx.Diag(res.Stderr, 1500)}
+		cls := "no-empty-file"
+		for i, n := range shape {
+			if n == 0 {
+				cls = "empty-file"
+				if i == 0 {
+					cls = "empty-first-file"
+					break
+				}
+			}
+		}
+		if res.TimedOut {
+			if res.Deadlock {
+				c.Violate("files:deadlock:"+cls, "obiconvert on several files never terminates", det)
+			} else {
+				c.Inconclusive("watchdog on obiconvert (several files)")
+			}
+			continue
+		}
+		if res.Exit != 0 {
+			c.Violate("files:exit:"+cls, "obiconvert fails on several well-formed files", det)
+			continue
+		}
+		got, err := gen.ParseFasta(res.Stdout)
+		if err != nil {
+			c.Violate("files:output-unparsable", "the output is not FASTA", det)
+			continue
+		}
+		c.Key("files/%v/%v", shape, cfg)
+		if d := itx.CompareSeq(gen.IDsOf(got), want); d != "" {
+			det["got"] = len(got)
+			det["want"] = len(want)
+			c.Violate("files:"+d+":"+cls, "the records of several input files are not output exactly once, file after file, in order", det)
+		}
+	}
+	c.Sample(map[string]any{"files_record_counts": shape})
+}
